@@ -167,6 +167,7 @@ def _run_check(pid, P, fam, tier, seed, work, t0):
     traces, events, states, nontriv = int(meta["traces"]), int(val["events"]), int(val["states"]), int(meta["nontrivial"].get(pid, 0))
     # further families that decide the same property on another input space (e.g. another alphabet of the same model)
     import registry
+    also_st = []
     for k, fname in enumerate(P.get("also", [])):
         fam2 = dict(registry.FAMILIES[fname], name=fname)
         P2 = dict(P, args={}, tier_args={})
@@ -176,11 +177,14 @@ def _run_check(pid, P, fam, tier, seed, work, t0):
             r[key] = r[key] + [x for x in r2[key] if x not in r[key]]
         for key in ("unreproduced", "unconfirmed", "unknown", "drift"):
             r[key] += r2[key]
+        also_st.append("%s: %s" % (fname, selftest(work, fam2, P2, pid, out2, tag="-" + fname)))
         traces += int(meta2["traces"]); events += int(val2["events"]); states += int(val2["states"]); nontriv += int(meta2["nontrivial"].get(pid, 0))
     violations, unreproduced = r["violations"], r["unreproduced"]
 
     # binding self-test: corrupt one logged field of an accepted trace, TLC must flag it
     st = selftest(work, fam, P, pid, out)
+    if also_st:
+        st = "; ".join([st] + also_st)
 
     samples = meta["samples"].get(pid) or meta["samples"].get("*") or []
     cov = dict(
@@ -214,7 +218,7 @@ def _run_check(pid, P, fam, tier, seed, work, t0):
     return 0
 
 
-def selftest(work, fam, P, pid, out):
+def selftest(work, fam, P, pid, out, tag=""):
     cor = P.get("corrupt") or fam.get("corrupt")
     if not cor:
         return "none"
@@ -232,7 +236,7 @@ def selftest(work, fam, P, pid, out):
     desc = cor(lines, pid)
     if desc is None:
         raise Machinery("self-test: no event suitable for corruption found in the first chunk")
-    d = work.sub("selftest")
+    d = work.sub("selftest" + tag)
     with open(os.path.join(d, "chunk_0000.ndjson"), "w") as f:
         for e in lines:
             f.write(json.dumps(e) + "\n")
